@@ -147,6 +147,10 @@ def build_obj(r: Any, counter: list, M: Any, shift: float = 0.0) -> Any:
     if tag == "t":
         counter[0] += 1
         return torch.tensor([float(counter[0]) + shift, 0.5])
+    if tag == "tt":
+        # a 2-D state tensor that is a transposed view (non-contiguous); in-place loading must still reach it
+        counter[0] += 1
+        return (torch.arange(6, dtype=torch.float32).reshape(3, 2) + float(counter[0]) + shift).t()
     if tag == "s":
         return r[1]
     if tag == "l":
@@ -342,7 +346,7 @@ def _values(allow_module: bool = True):
             opts.append(st.lists(st.tuples(names, ch), max_size=3, unique_by=lambda kv: kv[0]).map(lambda l: ["m", [list(x) for x in l]]))
         return st.one_of(*opts)
 
-    base = st.one_of(st.just(["t"]), st.just(["t"]), st.sampled_from([["s", 3], ["s", "txt"], ["s", 2.5], ["s", None], ["s", True]]))
+    base = st.one_of(st.just(["t"]), st.just(["t"]), st.just(["tt"]), st.sampled_from([["s", 3], ["s", "txt"], ["s", 2.5], ["s", None], ["s", True]]))
     return st.recursive(base, ext, max_leaves=14), names
 
 
@@ -360,7 +364,7 @@ def strategy_restore():
     from hypothesis import strategies as st2
 
     # optimizer param-state shape: dict -> (tensor | dict | module), modules hold tensors in tuples/dicts (as the Kronecker factor state does)
-    tens = st.just(["t"])
+    tens = st.sampled_from([["t"], ["t"], ["tt"]])
     tup = st.one_of(st.lists(tens, max_size=3), st.integers(11, 12).map(lambda n: [["t"]] * n)).map(lambda l: ["u", l])
     mod = st.lists(st.tuples(st.sampled_from(["factor_matrices", "inv_factor_matrices", "flags", "vals"]), st.one_of(tup, tens)), max_size=3,
                    unique_by=lambda kv: kv[0]).map(lambda l: ["m", [list(x) for x in l]])
